@@ -19,7 +19,7 @@ Proof. exact exp_inv. Qed.
 Print Assumptions C18_at_most_once_and_never_if_cached.
 
 (* the invariant holds of the state an expansion starts in: a cache, an empty log *)
-Example C18_initial : forall docs c0, cache_inv docs c0 (mkSt [] c0 [] EmptyString).
+Example C18_initial : forall docs c0, cache_inv docs c0 (mkSt [] c0 [] EmptyString false).
 Proof. intros. constructor; cbn; [constructor|intros x []|intros x []|intros x H; exact H]. Qed.
 
 (* one load: a cached document is not requested; a missing one is requested and then cached *)
